@@ -656,12 +656,32 @@ def check_import_guards(rule, tpl, ast, keys, fn, S_all=()):
         if unknown:
             rule.ok(None)       # handed in from more than one place / not a local: not followed
             continue
+        # `!commands.iter().all(|c| c.channels.is_empty())` is the same existential (¬∀¬): an outer negation turns `all` into "some ... not"
+        outer_neg = False
+        while ex.get("k") in ("unary", "paren") and isinstance(ex.get("expr"), dict):
+            if ex.get("k") == "unary" and ex.get("op") == "!":
+                outer_neg = not outer_neg
+            ex = ex["expr"]
         methods = [x["method"] for x in _walk(ex) if x.get("k") == "mcall"]
+        # what the quantified predicate says about a command's channels: "has some" (`!c.channels.is_empty()`, `len() > 0`) or "has none"
+        body_pol = None
+        for x in _walk(ex):
+            if x.get("k") == "mcall" and x["method"] in ("any", "all") and x.get("args") and x["args"][0].get("k") == "closure":
+                bt = re.sub(r"\s+", "", _et(x["args"][0]["body"]))
+                if re.fullmatch(r"!\w+\.channels\.is_empty\(\)", bt) or re.fullmatch(r"\w+\.channels\.len\(\)(>0|!=0|>=1)", bt):
+                    body_pol = True
+                elif re.fullmatch(r"\w+\.channels\.is_empty\(\)", bt) or re.fullmatch(r"\w+\.channels\.len\(\)==0", bt):
+                    body_pol = False
+        quant = "any" if ("any" in methods and "all" not in methods) else ("all" if ("all" in methods and "any" not in methods) else None)
+        if quant is not None:
+            good = (quant == "any" and not outer_neg and body_pol is not False) or (quant == "all" and outer_neg and body_pol is not True)
+            # rewrite to the canonical pair the decision below reads: existential = `any`, everything else = `all`
+            methods = [m_ for m_ in methods if m_ not in ("any", "all")] + (["any"] if good else ["all"])
         reads_channels = any(x.get("k") == "field" and x.get("member") == "channels" for x in _walk(ex))
         where = "%s::%s" % (vfn.owner, vfn.name)
         if "all" in methods and not any(m_ in methods for m_ in ("any", "find", "position", "flat_map", "filter", "sum", "count")):
-            rule.bad(V(rule.id, where, "import-guard-universal:%s:%s" % (tpl, g), "`%s` (guard of the Channel import in %s) is computed with `all`: the import is "
-                       "dropped as soon as one command has no channel, while the file still mentions Channel<..> for the others" % (g, tpl)))
+            rule.bad(V(rule.id, where, "import-guard-universal:%s:%s" % (tpl, g), "`%s` (guard of the Channel import in %s) is not the existential \"some command has a "
+                       "channel\" (quantifier, negation or predicate polarity differ): the import is missing in files that still mention Channel<..>" % (g, tpl)))
         elif not reads_channels and ex.get("k") in ("lit", "path", "mcall", "call", "binary", "unary") and not any(m_ in methods for m_ in ("any", "find", "position", "flat_map", "filter")):
             helper = [x for x in _walk(ex) if x.get("k") in ("call", "mcall")]
             if helper and ex.get("k") in ("call", "mcall") and not methods[:-1]:
